@@ -89,3 +89,25 @@ Proof.
   { induction s0 as [|mv t IH]; intros c H; cbn [Reply.final]; auto. apply IH. now apply step_seq. }
   apply G. cbn. lia.
 Qed.
+
+(* the reader loop forwards a generated re-request to reissuePackChan and never drops it: with room
+   in the channel (capacity 3) it is appended; with the channel full the reader keeps it in hand
+   (the blocking send) and the state is unchanged until the writer has taken one *)
+Theorem reader_forwards (c : Reply.conn) d rest :
+  Reply.c_hand c = None -> Reply.c_pending c = d :: rest -> m_id (Reply.d_m d) = 32771 ->
+  let c1 := fst (Reply.reader_look c) in
+  Reply.c_hand c1 = Some d /\ Reply.c_pending c1 = rest /\ snd (Reply.reader_look c) = [] /\
+  Reply.c_rq c1 = Reply.c_rq c /\
+  (if len (Reply.c_rq c1) <? 3
+   then Reply.c_rq (fst (Reply.reader_send c1)) = Reply.c_rq c1 ++ [d] /\ Reply.c_hand (fst (Reply.reader_send c1)) = None
+   else fst (Reply.reader_send c1) = c1).
+Proof.
+  intros Hh Hp Hid. unfold Reply.reader_look. rewrite Hh, Hp, Hid.
+  change (Reply.lookup 32771) with (Some (Reply.H false 0 Reply.REmpty)) || idtac.
+  destruct (Reply.lookup 32771) as [hi|] eqn:L; [|vm_compute in L; discriminate].
+  unfold Reply.is_reissue. rewrite Hid. change (32771 =? Reply.REISSUE) with true. cbn [fst snd Reply.c_hand Reply.c_pending Reply.c_rq].
+  repeat split.
+  unfold Reply.reader_send. cbn [Reply.c_hand]. unfold Reply.is_reissue. rewrite Hid. change (32771 =? Reply.REISSUE) with true.
+  cbn [Reply.c_rq]. change Reply.REISSUE_CAP with 3.
+  destruct (len (Reply.c_rq c) <? 3); cbn [fst Reply.c_rq Reply.c_hand]; auto.
+Qed.
